@@ -246,15 +246,13 @@ def _is_typevar_compatible(
         return None
     if not required_type.__constraints__ and not required_type.__bound__:
         return True
-    if required_type.__constraints__ and any(
-        is_type_compatible(incoming_type, c, memo) for c in required_type.__constraints__
-    ):
-        return True
-    return required_type.__bound__ and is_type_compatible(
-        incoming_type,
-        required_type.__bound__,
-        memo,
-    )
+    if required_type.__constraints__:
+        if any(is_type_compatible(incoming_type, c, memo) for c in required_type.__constraints__):
+            return True
+        if isinstance(incoming_type, UnionType) or get_origin(incoming_type) is Union:
+            return None  # the members of a union source are checked one by one
+        return False
+    return is_type_compatible(incoming_type, required_type.__bound__, memo)
 
 
 def is_object_array_type(tp: Any) -> bool:
